@@ -378,12 +378,22 @@ def run(run):
                     decls = sized_struct(r, "Big", total, placement)
                     mixed = r.random() < 0.5
                     alias = "BigFrame" if r.random() < 0.35 else None
-                    body = decls + [can_impl("Big", 100, alias=alias)]
+                    binding = can_impl("Big", 100, alias=alias)
+                    muxed = ""
+                    scal = [f for f in decls[-1]["fields"] if f["type"][0] in ("u", "i")]
+                    cands = [f for f in scal if f["type"][0] == "u" and 2 <= f["type"][1] <= 8]
+                    if cands and len(scal) >= 2 and r.random() < 0.6:
+                        # multiplexed signals: the layout (and so the size) is the same with or without them
+                        m = r.choice(cands)
+                        for f in r.sample([o for o in scal if o is not m], r.randint(1, min(3, len(scal) - 1))):
+                            binding["items"].append(("signal", f["name"], [("mux_count", r.randint(1, min(16, 1 << m["type"][1]))), ("mux_signal", ("s", m["name"]))]))
+                        muxed = ", multiplexed signals"
+                    body = decls + [binding]
                     if mixed:
                         g = good_bindings(r, r.randint(1, 3), 200)
                         body = g + body if r.random() < 0.5 else body + g
                     klass = "fits" if total <= 64 else "oversize"
-                    judge(run, body, total > 64, "%s %d bits, excess in %s, %s%s" % (klass, total, placement, "mixed" if mixed else "alone", ", binding renamed" if alias else ""), root, warm_up=(idx % 3 == 0))
+                    judge(run, body, total > 64, "%s %d bits, excess in %s, %s%s%s" % (klass, total, placement, "mixed" if mixed else "alone", ", binding renamed" if alias else "", muxed), root, warm_up=(idx % 3 == 0))
             for kind in VARKINDS:
                 for k in range(run.pick(2, 6)):
                     idx += 1
